@@ -231,4 +231,25 @@ CATALOGUE = [
     ("c10_writer_swapped", ["C10"], [(IO, "Pseudotrajectory(self.central_molecule, self.moving_molecule, self.grid_array)", "Pseudotrajectory(self.moving_molecule, self.central_molecule, self.grid_array)")], FIRE),
     ("ok_c10_writer_kw", ["C10"], [(IO, "Pseudotrajectory(self.central_molecule, self.moving_molecule, self.grid_array)", "Pseudotrajectory(molecule1=self.central_molecule, full_grid=self.grid_array, molecule2=self.moving_molecule)")], SILENT),
     ("ok_c10_n_atoms", ["C10", "C11"], [(PTS, "        num_atoms_m1 = len(self.static_molecule.atoms)\n        num_atoms_m2 = len(self.moving_molecule.atoms)", "        num_atoms_m1 = self.static_molecule.atoms.n_atoms\n        num_atoms_m2 = self.moving_molecule.atoms.n_atoms")], SILENT),
+
+    ("c08_memo_by_reference", ["C08", "C02"], [
+        (VO, "        self.additional_points = additional_points\n", "        self.additional_points = additional_points\n        self._saved_N_N_arrays = dict()\n"),
+        (VO, "    def _calculate_N_N_array(self, sel_property=\"adjacency\", **kwargs):\n        reduced_regions = self.get_all_voronoi_regions(reduced=True)\n", "    def _calculate_N_N_array(self, sel_property=\"adjacency\", **kwargs):\n        if sel_property in self._saved_N_N_arrays:\n            return self._saved_N_N_arrays[sel_property]\n        reduced_regions = self.get_all_voronoi_regions(reduced=True)\n"),
+        (VO, "        adj_matrix = coo_array((elements, (rows, columns)), shape=(N, N))\n        return adj_matrix", "        adj_matrix = coo_array((elements, (rows, columns)), shape=(N, N))\n        self._saved_N_N_arrays[sel_property] = adj_matrix\n        return adj_matrix")], FIRE),
+    ("ok_c08_memo_copy", ["C08", "C02"], [
+        (VO, "        self.additional_points = additional_points\n", "        self.additional_points = additional_points\n        self._saved_N_N_arrays = dict()\n"),
+        (VO, "    def _calculate_N_N_array(self, sel_property=\"adjacency\", **kwargs):\n        reduced_regions = self.get_all_voronoi_regions(reduced=True)\n", "    def _calculate_N_N_array(self, sel_property=\"adjacency\", **kwargs):\n        if sel_property in self._saved_N_N_arrays:\n            return self._saved_N_N_arrays[sel_property].copy()\n        reduced_regions = self.get_all_voronoi_regions(reduced=True)\n"),
+        (VO, "        adj_matrix = coo_array((elements, (rows, columns)), shape=(N, N))\n        return adj_matrix", "        adj_matrix = coo_array((elements, (rows, columns)), shape=(N, N))\n        self._saved_N_N_arrays[sel_property] = adj_matrix.copy()\n        return adj_matrix")], SILENT),
+
+    ("ok_c10_batch_matrices", ["C10"], [(PTS, "        for se3_coo in fg:\n            self.moving_molecule.atoms.positions = starting_positions\n            position = se3_coo[:3]\n            orientation = se3_coo[3:]\n            rotation_body = Rotation.from_quat(orientation)\n            self.moving_molecule.atoms.rotate(rotation_body.as_matrix(), point=",
+                                        "        body_matrices = Rotation.from_quat(fg[:, 3:]).as_matrix()\n        for i, se3_coo in enumerate(fg):\n            self.moving_molecule.atoms.positions = starting_positions\n            position = se3_coo[:3]\n            self.moving_molecule.atoms.rotate(body_matrices[i], point=")], SILENT),
+    ("c10_batch_modulo", ["C10"], [(PTS, "        for se3_coo in fg:\n            self.moving_molecule.atoms.positions = starting_positions\n            position = se3_coo[:3]\n            orientation = se3_coo[3:]\n            rotation_body = Rotation.from_quat(orientation)\n            self.moving_molecule.atoms.rotate(rotation_body.as_matrix(), point=",
+                                   "        body_matrices = Rotation.from_quat(fg[:, 3:]).as_matrix()\n        for i, se3_coo in enumerate(fg):\n            self.moving_molecule.atoms.positions = starting_positions\n            position = se3_coo[:3]\n            self.moving_molecule.atoms.rotate(body_matrices[i % 8], point=")], FIRE),
+    ("c10_conditional_translate", ["C10"], [(PTS, "            self.moving_molecule.atoms.translate(position)\n", "            if len(self.moving_molecule.atoms) > 1:\n                self.moving_molecule.atoms.translate(position)\n")], FIRE),
+
+    ("c18_eps_tolerance", ["C18"], [(PO, "                    if np.isclose(node_dist, edge_len):", "                    if np.isclose(node_dist, edge_len, rtol=np.finfo(float).eps, atol=0):")], FIRE),
+    ("c18_exact_equal", ["C18"], [(PO, "                    if np.isclose(node_dist, edge_len):", "                    if node_dist == edge_len:")], FIRE),
+    ("ok_c18_tolerance", ["C18"], [(PO, "                    if np.isclose(node_dist, edge_len):", "                    if np.isclose(node_dist, edge_len, rtol=1e-7, atol=1e-10):")], SILENT),
+    ("c18_pruned_walk", ["C18"], [(PO, "    for neighbor_list in [graph.neighbors(n) for n in direct_neighbours]:", "    for neighbor_list in [graph.neighbors(n) for n in direct_neighbours if graph.nodes[n][\"level\"] > 0]:")], FIRE),
+    ("ok_c18_nested_walk", ["C18"], [(PO, "    for neighbor_list in [graph.neighbors(n) for n in direct_neighbours]:\n        for n in neighbor_list:", "    for via in direct_neighbours:\n        for n in graph.neighbors(via):")], SILENT),
 ]
